@@ -933,12 +933,17 @@ class PeerGetDirectoryContentCommand(BaseCommand[PeerDirectoryContentsReply.Requ
         self._ticket: Optional[int] = None
 
     async def send(self, client: SoulSeekClient):
-        self._ticket = next(client.ticket_generator)
+        if self._ticket is None:
+            self._ticket = next(client.ticket_generator)
         await client.network.send_peer_messages(
             self.username, PeerDirectoryContentsRequest.Request(self._ticket, self.directory)
         )
 
     def build_expected_response(self, client: SoulSeekClient) -> Optional[ExpectedResponse]:
+        # The expected response is built before the request is sent: the
+        # ticket has to be known here
+        if self._ticket is None:
+            self._ticket = next(client.ticket_generator)
         return ExpectedResponse(
             PeerConnection,
             PeerDirectoryContentsReply.Request,
